@@ -1,20 +1,718 @@
 /-
   C16 — relational built-ins enumerate exactly their relation in every call mode.
--/
-import PrologVerif.Model.Rel
-import PrologVerif.Spec.Relations
-namespace PrologVerif.C16
-open PrologVerif PrologVerif.Rel
 
-/-- the clauses of member/2 and select/3 used by the model are those of bootstrap.pl -/
-theorem C16_bootstrap_tie :
-    bootClauses "member" 2 =
-      [ Term.a2 "member" (.var 0) (Term.consT (.var 0) (.var 1)),
-        Term.a2 ":-" (Term.a2 "member" (.var 0) (Term.consT (.var 1) (.var 2))) (Term.a2 "member" (.var 0) (.var 2)) ] ∧
-    bootClauses "select" 3 =
-      [ Term.a3 "select" (.var 0) (Term.consT (.var 0) (.var 1)) (.var 1),
-        Term.a2 ":-" (Term.a3 "select" (.var 0) (Term.consT (.var 1) (.var 2)) (Term.consT (.var 1) (.var 3)))
-          (Term.a3 "select" (.var 0) (.var 2) (.var 3)) ] := by
+  Property theorems only (helper lemmas: Proofs/RelMatch, RelExact, RelErrors, Utf8).  Everything is
+  about `Model/Rel.lean`, which mirrors the builtins of engine/builtin.go function by function; the
+  tie to the source is the correspondence stream `c16.rel` and, for member/2 and select/3, the
+  clauses regenerated from bootstrap.pl.
+
+  Shape of the statements.  A call is its list of resolved argument terms `args`; the model returns
+  `.error e` or `.ok ans` (the answer tuples in order).  For a relation `R` on tuples
+  (Spec/Relations) `Exact R args ans` bundles the three P0 obligations of DESIGN §6:
+      sound     every answer is a tuple of `R` and an instance of the call,
+      complete  every tuple of `R` that is an instance of the call is an answer,
+      nodup     no tuple is answered twice.
+  `ErrorsOk pred args r` is the ISO error table (`R_errors`).  `C16_monotone` is the "consequently"
+  of the property; per predicate it is the one-line corollary `…_monotone`.
+
+  Mode table (ISO 8.16 / 8.5, Prologue for the list predicates):
+    atom_length(+atom, ?integer)            atom_concat(?atom, ?atom, +atom) | (+atom, +atom, -atom)
+    sub_atom(+atom, ?int, ?int, ?int, ?atom) atom_chars(+atom, ?list) | (-atom, +char_list)   (atom_codes alike)
+    char_code(+char, ?code) | (-char, +code) between(+int, +int, ?int)     succ(+int, ?int) | (-int, +int)
+    functor(+nonvar, ?, ?) | (-, +atomic, +int)   arg(+int, +compound, ?)   =..(+nonvar, ?list) | (-, +list)
+    nth0/nth1(?int, +list, ?)   length(?list, ?int)   append(?list, ?, ?)   member(?, ?list)   select(?, ?list, ?list)
+-/
+import PrologVerif.Proofs.RelErrors
+import PrologVerif.Proofs.RelList
+namespace PrologVerif.C16
+open PrologVerif PrologVerif.Rel PrologVerif.Relations
+
+/-! ## the "consequently": instantiating further arguments selects the matching subset -/
+
+/-- If two calls of a predicate are both answered exactly and the second is an instance of the
+    first, its answers are (a permutation of) the answers of the first that match it. -/
+theorem C16_monotone {R : List Term → Prop} {args args' : List Term} {ans ans' : Answers}
+    (h : Exact R args ans) (h' : Exact R args' ans') (hi : IsInstance args args') :
+    ans'.Perm (ans.filter fun t => decide (IsInstance args' t)) :=
+  h.monotone h' hi
+
+/-- the instance test used above is decided by the matcher that the model (and the oracle) runs -/
+theorem C16_instance_decided (args t : List Term) :
+    (matchL args t []).isSome = true ↔ ∃ σ : Nat → Term, t = args.map (substT σ) :=
+  matchL_isSome_iff args t
+
+/-! ## atom_length/2 -/
+
+theorem C16_atom_length_exact {a l : Term} {ans : Answers} (h : atomLength a l = .ok ans) :
+    Exact atomLengthT [a, l] ans := by
+  unfold atomLength at h
+  split at h
+  · cases h
+  · rename_i s
+    split at h
+    · cases h
+    · cases h
+      apply exact_selectCands
+      · intro c hc; simp at hc; subst hc; simp [atomLengthT]
+      · intro t hr hi
+        obtain ⟨σ, rfl⟩ := hi
+        simp only [List.map, substT_atom] at hr ⊢
+        cases hl : substT σ l <;> simp [atomLengthT, hl] at hr
+        simp [hr]
+      · simp
+  · cases h
+
+theorem modeErrors_atom_length (a l : Term) : modeErrors "atom_length" [a, l] =
+    (if isVar a then [instErr] else mustBeAtomOrVar a) ++ notLessThanZero l := rfl
+
+theorem C16_atom_length_errors (a l : Term) : ErrorsOk "atom_length" [a, l] (atomLength a l) := by
+  apply errorsOk_of _ _ (modeErrors_atom_length a l) rfl
+  rw [nlz_eq, mustBeAtomOrVar_eq]
+  have := instErr_not_mem_cpi l
+  unfold atomLength
+  split
+  · simp [isVar]
+  · cases h : checkPositiveInteger l <;> simp_all [isVar, isVarOrAtom]
+  · cases a <;> simp_all [isVar, isVarOrAtom]
+
+theorem C16_atom_length_monotone {a l a' l' : Term} {ans ans' : Answers}
+    (h : atomLength a l = .ok ans) (h' : atomLength a' l' = .ok ans') (hi : IsInstance [a, l] [a', l']) :
+    ans'.Perm (ans.filter fun t => decide (IsInstance [a', l'] t)) :=
+  C16_monotone (C16_atom_length_exact h) (C16_atom_length_exact h') hi
+
+example : atomLength (.atom "é€😀") (.var 0) = .ok [[.atom "é€😀", .int 3]] := by decide +kernel
+
+/-! ## atom_concat/3 -/
+
+theorem C16_atom_concat_exact {a1 a2 a3 : Term} {ans : Answers} (h : atomConcat a1 a2 a3 = .ok ans) :
+    Exact atomConcatT [a1, a2, a3] ans := by
+  unfold atomConcat at h
+  split at h
+  · -- atom3 unbound: atom1, atom2 must be atoms
+    split at h
+    · cases h
+    · rename_i s1
+      split at h
+      · cases h
+      · rename_i s2
+        cases h
+        apply exact_selectCands
+        · intro c hc; simp at hc; subst hc
+          simp [atomConcatT, concat, mkAtom, String.toList_ofList]
+        · intro t hr hi
+          obtain ⟨σ, rfl⟩ := hi
+          simp only [List.map, substT_atom] at hr ⊢
+          cases h3 : substT σ (Term.var _) <;> simp [atomConcatT, h3] at hr
+          rename_i c
+          simp only [concat] at hr
+          simp [mkAtom, hr, String.ofList_toList]
+        · simp
+      · cases h
+    · cases h
+  · rename_i c
+    split at h
+    · cases h
+    · split at h
+      · cases h
+      · cases h
+        apply exact_selectCands
+        · intro t ht
+          simp only [List.mem_map] at ht
+          obtain ⟨⟨x, y⟩, hp, rfl⟩ := ht
+          simp [atomConcatT, concat, mkAtom, String.toList_ofList, mem_concatSplits.mp hp]
+        · intro t hr hi
+          obtain ⟨σ, rfl⟩ := hi
+          simp only [List.map, substT_atom] at hr ⊢
+          cases h1 : substT σ a1 <;> simp [atomConcatT, h1] at hr
+          cases h2 : substT σ a2 <;> simp [h2] at hr
+          rename_i x y
+          simp only [List.mem_map]
+          exact ⟨(x.toList, y.toList), mem_concatSplits.mpr hr, by simp [mkAtom_toList]⟩
+        · apply nodup_map_on _ (concatSplits_nodup _)
+          rintro ⟨x, y⟩ _ ⟨x', y'⟩ _ h
+          simp only [List.cons.injEq, and_true] at h
+          rw [mkAtom_inj h.1, mkAtom_inj h.2]
+  · cases h
+
+theorem modeErrors_atom_concat (a b c : Term) : modeErrors "atom_concat" [a, b, c] =
+    (if isVar c ∧ (isVar a ∨ isVar b) then [instErr] else []) ++
+      mustBeAtomOrVar a ++ mustBeAtomOrVar b ++ mustBeAtomOrVar c := rfl
+
+theorem C16_atom_concat_errors (a b c : Term) : ErrorsOk "atom_concat" [a, b, c] (atomConcat a b c) := by
+  apply errorsOk_of _ _ (modeErrors_atom_concat a b c) rfl
+  simp only [mustBeAtomOrVar_eq]
+  unfold atomConcat
+  split
+  · split
+    · simp [isVar, isVarOrAtom]
+    · split
+      · simp [isVar, isVarOrAtom]
+      · simp [isVar, isVarOrAtom]
+      · cases b <;> simp_all [isVar, isVarOrAtom]
+    · cases a <;> simp_all [isVar, isVarOrAtom]
+  · split
+    · simp_all [isVar, isVarOrAtom]
+    · split
+      · simp_all [isVar, isVarOrAtom]
+      · simp_all [isVar, isVarOrAtom]
+  · cases c <;> simp_all [isVar, isVarOrAtom]
+
+theorem C16_atom_concat_monotone {a b c a' b' c' : Term} {ans ans' : Answers}
+    (h : atomConcat a b c = .ok ans) (h' : atomConcat a' b' c' = .ok ans')
+    (hi : IsInstance [a, b, c] [a', b', c']) :
+    ans'.Perm (ans.filter fun t => decide (IsInstance [a', b', c'] t)) :=
+  C16_monotone (C16_atom_concat_exact h) (C16_atom_concat_exact h') hi
+
+example : atomConcat (.var 0) (.var 1) (.atom "é€") =
+    .ok [[.atom "", .atom "é€", .atom "é€"], [.atom "é", .atom "€", .atom "é€"], [.atom "é€", .atom "", .atom "é€"]] := by
   decide +kernel
+
+/-! ## sub_atom/5 -/
+
+theorem C16_sub_atom_exact {w b l a s : Term} {ans : Answers} (h : Rel.subAtom w b l a s = .ok ans) :
+    Exact subAtomT [w, b, l, a, s] ans := by
+  unfold Rel.subAtom at h
+  split at h
+  · cases h
+  · rename_i ws
+    split at h
+    · cases h
+    split at h
+    · cases h
+    split at h
+    · cases h
+    split at h
+    · cases h
+    cases h
+    apply exact_selectCands
+    · intro t ht
+      obtain ⟨i, n, hin, rfl⟩ := mem_subAtomCands.mp ht
+      simp only [subAtomT, mkAtom, String.toList_ofList, subAtom_iff]
+      simp; omega
+    · intro t hr hi
+      obtain ⟨σ, rfl⟩ := hi
+      obtain ⟨w', b', l', a', s', ht, hb, hl, ha, hsub⟩ := subAtomT_inv hr
+      simp only [List.map, substT_atom, List.cons.injEq, Term.atom.injEq, and_true] at ht
+      obtain ⟨rfl, hb', hl', ha', hs'⟩ := ht
+      simp only [List.map, substT_atom, hb', hl', ha', hs']
+      rw [subAtom_iff] at hsub
+      refine mem_subAtomCands.mpr ⟨b'.toNat, l'.toNat, by omega, ?_⟩
+      simp only [mkAtom_toList, List.cons.injEq, Term.int.injEq, and_true, true_and, Int.ofNat_eq_natCast]
+      refine ⟨by omega, by omega, by omega, ?_⟩
+      rw [← hsub.2, mkAtom_toList]
+    · exact subAtomCands_nodup _
+  · cases h
+
+theorem modeErrors_sub_atom (w b l a s : Term) : modeErrors "sub_atom" [w, b, l, a, s] =
+    (if isVar w then [instErr] else mustBeAtomOrVar w) ++ notLessThanZero b ++ notLessThanZero l ++
+      notLessThanZero a ++ mustBeAtomOrVar s := rfl
+
+theorem C16_sub_atom_errors (w b l a s : Term) :
+    ErrorsOk "sub_atom" [w, b, l, a, s] (Rel.subAtom w b l a s) := by
+  apply errorsOk_of _ _ (modeErrors_sub_atom w b l a s) rfl
+  simp only [nlz_eq, mustBeAtomOrVar_eq]
+  have hb := instErr_not_mem_cpi b
+  have hl := instErr_not_mem_cpi l
+  have ha := instErr_not_mem_cpi a
+  unfold Rel.subAtom
+  split
+  · simp [isVar]
+  · cases h1 : checkPositiveInteger b
+    · cases h2 : checkPositiveInteger l
+      · cases h3 : checkPositiveInteger a
+        · by_cases h4 : isVarOrAtom s = false <;> simp_all [isVar, isVarOrAtom]
+        · simp_all [isVar, isVarOrAtom]
+      · simp_all [isVar, isVarOrAtom]
+    · simp_all [isVar, isVarOrAtom]
+  · cases w <;> simp_all [isVar, isVarOrAtom]
+
+theorem C16_sub_atom_monotone {w b l a s w' b' l' a' s' : Term} {ans ans' : Answers}
+    (h : Rel.subAtom w b l a s = .ok ans) (h' : Rel.subAtom w' b' l' a' s' = .ok ans')
+    (hi : IsInstance [w, b, l, a, s] [w', b', l', a', s']) :
+    ans'.Perm (ans.filter fun t => decide (IsInstance [w', b', l', a', s'] t)) :=
+  (C16_sub_atom_exact h).monotone (C16_sub_atom_exact h') hi
+
+example : Rel.subAtom (.atom "é€") (.var 0) (.int 1) (.var 1) (.var 2) =
+    .ok [[.atom "é€", .int 0, .int 1, .int 1, .atom "é"], [.atom "é€", .int 1, .int 1, .int 0, .atom "€"]] := by
+  decide +kernel
+
+/-! ## atom_chars/2 -/
+
+theorem C16_atom_chars_exact {a l : Term} {ans : Answers} (h : Rel.atomChars a l = .ok ans) :
+    Exact atomCharsT [a, l] ans := by
+  unfold Rel.atomChars at h
+  split at h
+  · -- the atom is unbound: the list is a ground list of characters
+    rename_i v
+    split at h
+    · cases h
+    · rename_i cs hcs
+      split at h
+      · cases h
+      · rename_i htl
+        cases h
+        have hl : l = charList cs := by
+          have := list_spine l
+          rw [listErr_false_none htl, charsStrict_ok hcs] at this
+          exact this.symm
+        subst hl
+        apply exact_selectCands
+        · intro c hc; simp at hc; subst hc
+          simp only [mkAtom]
+          rw [atomCharsT_iff]; simp [String.toList_ofList]
+        · intro t hr hi
+          obtain ⟨σ, rfl⟩ := hi
+          simp only [List.map, substT_ground σ _ (groundT_charList cs)] at hr ⊢
+          obtain ⟨x, hx⟩ := atomCharsT_atom hr
+          rw [hx] at hr ⊢
+          have := charList_inj ((atomCharsT_iff x _).mp hr)
+          rw [this, mkAtom_toList]; simp
+        · simp
+  · rename_i s
+    split at h
+    · cases h
+    · split at h
+      · cases h
+      · cases h
+        apply exact_selectCands
+        · intro c hc; simp at hc; subst hc
+          rw [atomCharsT_iff]
+        · intro t hr hi
+          obtain ⟨σ, rfl⟩ := hi
+          simp only [List.map, substT_atom] at hr ⊢
+          simp [(atomCharsT_iff s _).mp hr]
+        · simp
+  · cases h
+
+/-! ## atom_codes/2 -/
+
+theorem C16_atom_codes_exact {a l : Term} {ans : Answers} (h : Rel.atomCodes a l = .ok ans) :
+    Exact atomCodesT [a, l] ans := by
+  unfold Rel.atomCodes at h
+  split at h
+  · rename_i v
+    split at h
+    · cases h
+    · rename_i cs hcs
+      split at h
+      · cases h
+      · rename_i htl
+        cases h
+        have hl : l = codeList cs := by
+          have := list_spine l
+          rw [listErr_false_none htl, codesStrict_ok hcs] at this
+          exact this.symm
+        subst hl
+        apply exact_selectCands
+        · intro c hc; simp at hc; subst hc
+          simp only [mkAtom]
+          rw [atomCodesT_iff]; simp [String.toList_ofList]
+        · intro t hr hi
+          obtain ⟨σ, rfl⟩ := hi
+          simp only [List.map, substT_ground σ _ (groundT_codeList cs)] at hr ⊢
+          obtain ⟨x, hx⟩ := atomCodesT_atom hr
+          rw [hx] at hr ⊢
+          have := codeList_inj ((atomCodesT_iff x _).mp hr)
+          rw [this, mkAtom_toList]; simp
+        · simp
+  · rename_i s
+    split at h
+    · cases h
+    · split at h
+      · cases h
+      · cases h
+        apply exact_selectCands
+        · intro c hc; simp at hc; subst hc
+          rw [atomCodesT_iff]
+        · intro t hr hi
+          obtain ⟨σ, rfl⟩ := hi
+          simp only [List.map, substT_atom] at hr ⊢
+          simp [(atomCodesT_iff s _).mp hr]
+        · simp
+  · cases h
+
+/-! ## char_code/2 -/
+
+theorem charCode_atom_aux {s : String} {n : Term} {ans : Answers}
+    (h : charCodeOfAtom (.atom s) n s = Except.ok ans) :
+    Exact charCodeT [.atom s, n] ans := by
+  unfold charCodeOfAtom at h
+  split at h
+  · rename_i ch hs
+    cases h
+    apply exact_selectCands
+    · intro t ht; simp at ht; subst ht
+      simp [charCodeT, Relations.charCode, hs]
+    · intro t hr hi
+      obtain ⟨σ, rfl⟩ := hi
+      simp only [List.map, substT_atom] at hr ⊢
+      obtain ⟨s', ch', ht, hs'⟩ := charCodeT_inv hr
+      simp only [List.cons.injEq, Term.atom.injEq, and_true] at ht
+      obtain ⟨rfl, hn⟩ := ht
+      rw [hs] at hs'
+      simp at hs'
+      simp [hn, hs']
+    · simp
+  · cases h
+
+theorem C16_char_code_exact {c n : Term} {ans : Answers} (h : Rel.charCode c n = .ok ans) :
+    Exact charCodeT [c, n] ans := by
+  unfold Rel.charCode at h
+  split at h
+  · rename_i v
+    split at h
+    · cases h
+    · rename_i cd
+      split at h
+      · rename_i hv
+        cases h
+        have hrune := runeOf_toNat hv
+        apply exact_selectCands
+        · intro t ht; simp at ht; subst ht
+          simp only [charCodeT, Relations.charCode, charAtom, mkAtom, String.toList_ofList]
+          exact hrune.symm
+        · intro t hr hi
+          obtain ⟨σ, rfl⟩ := hi
+          simp only [List.map, substT_int] at hr ⊢
+          obtain ⟨s, ch, ht, hs⟩ := charCodeT_inv hr
+          simp only [List.cons.injEq, Term.int.injEq, and_true] at ht
+          obtain ⟨hx, hcd⟩ := ht
+          have hch : ch = runeOf cd := by
+            apply char_toNat_inj
+            exact (Int.ofNat_inj.mp (hrune.trans hcd)).symm
+          simp [hx, charAtom, mkAtom, ← hch, ← hs, String.ofList_toList]
+        · simp
+      · cases h
+    · cases h
+  · rename_i s
+    split at h
+    · exact charCode_atom_aux h
+    · exact charCode_atom_aux h
+    · cases h
+  · cases h
+
+theorem modeErrors_atom_chars (a l : Term) : modeErrors "atom_chars" [a, l] =
+    if isVar a then listErrors false l ++ charElemErrors true l.spine.1
+    else mustBeAtomOrVar a ++ listErrors true l ++ charElemErrors false l.spine.1 := rfl
+
+theorem C16_atom_chars_errors (a l : Term) : ErrorsOk "atom_chars" [a, l] (Rel.atomChars a l) := by
+  apply errorsOk_of _ [] (modeErrors_atom_chars a l) rfl
+  unfold Rel.atomChars
+  split
+  · simp only [isVar, if_true]
+    cases hcs : charsStrict l.spine.1 with
+    | error e => simp [charsStrict_error hcs, List.ne_nil_of_mem (charsStrict_error hcs)]
+    | ok cs =>
+      simp only [charsStrict_ok_errors hcs, List.append_nil, listErrors_eq]
+      cases hl : listErr false l l.spine.2 <;> simp
+  · simp only [isVar, mustBeAtomOrVar_eq, isVarOrAtom]
+    have h1 := instErr_not_mem_charElemErrors_lax l.spine.1
+    have h2 := instErr_not_mem_listErrors_true l
+    cases hcs : charsLax l.spine.1 with
+    | some e => simp [charsLax_some hcs, h1, h2, List.ne_nil_of_mem (charsLax_some hcs)]
+    | none =>
+      simp only [charsLax_none hcs, List.append_nil]
+      have h3 := listErrors_eq true l
+      cases hl : listErr true l l.spine.2 <;> simp_all
+  · have h1 := instErr_not_mem_charElemErrors_lax l.spine.1
+    have h2 := instErr_not_mem_listErrors_true l
+    cases a <;> simp_all [isVar, mustBeAtomOrVar_eq, isVarOrAtom]
+
+theorem modeErrors_atom_codes (a l : Term) : modeErrors "atom_codes" [a, l] =
+    if isVar a then listErrors false l ++ codeElemErrors true l.spine.1
+    else mustBeAtomOrVar a ++ listErrors true l ++ codeElemErrors false l.spine.1 := rfl
+
+theorem C16_atom_codes_errors (a l : Term) : ErrorsOk "atom_codes" [a, l] (Rel.atomCodes a l) := by
+  apply errorsOk_of _ [] (modeErrors_atom_codes a l) rfl
+  unfold Rel.atomCodes
+  split
+  · simp only [isVar, if_true]
+    cases hcs : codesStrict l.spine.1 with
+    | error e => simp [codesStrict_error hcs, List.ne_nil_of_mem (codesStrict_error hcs)]
+    | ok cs =>
+      simp only [codesStrict_ok_errors hcs, List.append_nil, listErrors_eq]
+      cases hl : listErr false l l.spine.2 <;> simp
+  · simp only [isVar, mustBeAtomOrVar_eq, isVarOrAtom]
+    have h1 := instErr_not_mem_codeElemErrors_lax l.spine.1
+    have h2 := instErr_not_mem_listErrors_true l
+    cases hcs : codesLax l.spine.1 with
+    | some e => simp [codesLax_some hcs, h1, h2, List.ne_nil_of_mem (codesLax_some hcs)]
+    | none =>
+      simp only [codesLax_none hcs, List.append_nil]
+      have h3 := listErrors_eq true l
+      cases hl : listErr true l l.spine.2 <;> simp_all
+  · have h1 := instErr_not_mem_codeElemErrors_lax l.spine.1
+    have h2 := instErr_not_mem_listErrors_true l
+    cases a <;> simp_all [isVar, mustBeAtomOrVar_eq, isVarOrAtom]
+
+theorem modeErrors_char_code (c n : Term) : modeErrors "char_code" [c, n] =
+    (if isVar c ∧ isVar n then [instErr] else []) ++
+      (match c with
+        | .var _ => []
+        | .atom s => if s.toList.length = 1 then [] else [typeErr "character" c]
+        | _ => [typeErr "character" c]) ++
+      (match n with
+        | .var _ => []
+        | .int i => if isVar c ∧ !isCharCode i then [representationErr "character_code"] else []
+        | _ => [typeErr "integer" n]) := rfl
+
+theorem charCodeOfAtom_cases (s : String) (n : Term) :
+    (s.toList.length = 1 ∧ ∃ ans, charCodeOfAtom (.atom s) n s = .ok ans) ∨
+    (¬ s.toList.length = 1 ∧ charCodeOfAtom (.atom s) n s = .error (typeErr "character" (.atom s))) := by
+  unfold charCodeOfAtom
+  split
+  · rename_i ch hs; left; simp [hs]
+  · rename_i hne
+    right
+    refine ⟨?_, rfl⟩
+    rw [length_one_iff]; rintro ⟨ch, hc⟩; exact hne ch hc
+
+theorem C16_char_code_errors (c n : Term) : ErrorsOk "char_code" [c, n] (Rel.charCode c n) := by
+  apply errorsOk_of _ [] (modeErrors_char_code c n) rfl
+  unfold Rel.charCode
+  split
+  · split
+    · simp [isVar]
+    · rename_i cd
+      by_cases hv : validRune cd
+      · simp [isVar, hv, (isCharCode_iff cd).mpr hv]
+      · have : isCharCode cd = false := by
+          cases hc : isCharCode cd
+          · rfl
+          · exact absurd ((isCharCode_iff cd).mp hc) hv
+        simp [isVar, hv, this]
+    · cases n <;> simp_all [isVar]
+  · rename_i s
+    split
+    · rename_i v
+      rcases charCodeOfAtom_cases s (.var v) with ⟨hl, ans, ha⟩ | ⟨hl, he⟩
+      · simp_all [isVar]
+      · simp_all [isVar]
+    · rename_i b
+      rcases charCodeOfAtom_cases s (.int b) with ⟨hl, ans, ha⟩ | ⟨hl, he⟩
+      · simp_all [isVar]
+      · simp_all [isVar]
+    · cases n <;> simp_all [isVar]
+  · cases c <;> simp_all [isVar] <;> cases n <;> simp [isVar]
+
+/-! ## between/3 -/
+
+/-- per prefix: the first `k` alternatives are `low, low+1, …` (never beyond `high`, no wrap-around
+    at max_integer: the successor is only computed while `low < high`) -/
+theorem C16_between_prefix : (k : Nat) → (low high : Int) → low ≤ high →
+    betweenAlts k low high = (List.range (min k (high - low + 1).toNat)).map fun i => low + Int.ofNat i
+  | 0, low, high, _ => by simp [betweenAlts]
+  | k + 1, low, high, h => by
+    unfold betweenAlts
+    by_cases hlt : low < high
+    · simp only [hlt, if_true]
+      rw [C16_between_prefix k (low + 1) high (by omega)]
+      have : min (k + 1) (high - low + 1).toNat = min k (high - (low + 1) + 1).toNat + 1 := by omega
+      rw [this, List.range_succ_eq_map]
+      simp [List.map_map, Function.comp_def]
+      intro a _
+      omega
+    · have : high = low := by omega
+      subst this
+      simp
+
+theorem mem_betweenAlts {k : Nat} {low high x : Int} (h : low ≤ high) (hk : (high - low + 1).toNat ≤ k) :
+    x ∈ betweenAlts k low high ↔ low ≤ x ∧ x ≤ high := by
+  rw [C16_between_prefix k low high h, Nat.min_eq_right hk]
+  simp only [List.mem_map, List.mem_range]
+  constructor
+  · rintro ⟨i, hi, rfl⟩; simp only [Int.ofNat_eq_natCast]; omega
+  · rintro ⟨h1, h2⟩; exact ⟨(x - low).toNat, by omega, by simp only [Int.ofNat_eq_natCast]; omega⟩
+
+theorem betweenAlts_nodup (k : Nat) (low high : Int) (h : low ≤ high) : (betweenAlts k low high).Nodup := by
+  rw [C16_between_prefix k low high h]
+  apply nodup_map_on _ List.nodup_range
+  intro i _ j _ hij
+  simp only [Int.ofNat_eq_natCast] at hij
+  omega
+
+/-- `k` answers are enough for the call (always true for a bound value; for an unbound one the
+    whole range is enumerated) -/
+def BetweenFuel (k : Nat) (lower upper : Term) : Prop :=
+  ∀ low high, lower = .int low → upper = .int high → (high - low + 1).toNat ≤ k
+
+theorem C16_between_exact {k : Nat} {l u x : Term} {ans : Answers} (hk : BetweenFuel k l u)
+    (h : Rel.between k l u x = .ok ans) : Exact betweenT [l, u, x] ans := by
+  unfold Rel.between at h
+  split at h
+  · rename_i low
+    split at h
+    · rename_i high
+      split at h
+      · rename_i hgt
+        cases h
+        apply exact_nil
+        intro t hr hi
+        obtain ⟨σ, rfl⟩ := hi
+        obtain ⟨l', u', x', ht, h1, h2⟩ := betweenT_inv hr
+        simp only [List.map, substT_int, List.cons.injEq, Term.int.injEq, and_true] at ht
+        omega
+      · rename_i hle
+        split at h
+        · rename_i v
+          split at h
+          · rename_i hout
+            cases h
+            apply exact_nil
+            intro t hr hi
+            obtain ⟨σ, rfl⟩ := hi
+            obtain ⟨l', u', x', ht, h1, h2⟩ := betweenT_inv hr
+            simp only [List.map, substT_int, List.cons.injEq, Term.int.injEq, and_true] at ht
+            omega
+          · rename_i hin
+            cases h
+            apply exact_single
+            · simp only [betweenT, Relations.between]; omega
+            · exact IsInstance.refl _
+            · intro t hr hi
+              obtain ⟨σ, rfl⟩ := hi
+              simp [substT_int]
+        · rename_i v
+          cases h
+          have hfuel := hk low high rfl rfl
+          refine ⟨?_, ?_, ?_⟩
+          · intro t ht
+            simp only [List.mem_map] at ht
+            obtain ⟨y, hy, rfl⟩ := ht
+            rw [mem_betweenAlts (by omega) hfuel] at hy
+            refine ⟨by simp only [betweenT, Relations.between]; exact hy, ?_⟩
+            exact ⟨bind1 v (.int y), by simp [substT, bind1]⟩
+          · intro t hr hi
+            obtain ⟨σ, rfl⟩ := hi
+            obtain ⟨l', u', x', ht, h1, h2⟩ := betweenT_inv hr
+            simp only [List.map, substT_int, List.cons.injEq, Term.int.injEq, and_true] at ht
+            obtain ⟨rfl, rfl, hx⟩ := ht
+            simp only [List.map, substT_int, hx, List.mem_map]
+            exact ⟨x', (mem_betweenAlts (by omega) hfuel).mpr ⟨h1, h2⟩, rfl⟩
+          · apply nodup_map_on _ (betweenAlts_nodup _ _ _ (by omega))
+            intro a _ b _ hab
+            simpa using hab
+        · cases h
+    · cases h
+    · cases h
+  · cases h
+  · cases h
+
+theorem modeErrors_between (l h x : Term) : modeErrors "between" [l, h, x] =
+    (if isVar l ∨ isVar h then [instErr] else []) ++ mustBeIntOrVar l ++ mustBeIntOrVar h ++ mustBeIntOrVar x := rfl
+
+theorem C16_between_errors (k : Nat) (l u x : Term) : ErrorsOk "between" [l, u, x] (Rel.between k l u x) := by
+  apply errorsOk_of _ [] (modeErrors_between l u x) rfl
+  unfold Rel.between
+  cases l <;> cases u <;> simp [isVar, mustBeIntOrVar, isInt]
+  all_goals (try (cases x <;> simp [isVar, isInt]))
+  all_goals (split <;> (try split) <;> simp)
+
+/-! ## succ/2 -/
+
+theorem succ_single_aux {x s : Term} {a b : Int} (hr : b = a + 1) (ha : 0 ≤ a)
+    (hdet : ∀ σ : Nat → Term, succT [substT σ x, substT σ s] → substT σ x = .int a ∧ substT σ s = .int b) :
+    Exact succT [x, s] (selectCands [x, s] [[.int a, .int b]]) := by
+  apply exact_selectCands
+  · intro c hc; simp at hc; subst hc
+    simp [succT, Relations.succ, hr, ha]
+  · intro t hr' hi
+    obtain ⟨σ, rfl⟩ := hi
+    obtain ⟨h1, h2⟩ := hdet σ hr'
+    simp [h1, h2]
+  · simp
+
+theorem C16_succ_exact {x s : Term} {ans : Answers} (h : Rel.succ x s = .ok ans) :
+    Exact succT [x, s] ans := by
+  unfold Rel.succ at h
+  split at h
+  · rename_i v
+    split at h
+    · cases h
+    · rename_i sv
+      split at h
+      · cases h
+      · split at h
+        · rename_i h0
+          cases h
+          apply exact_nil
+          intro t hr hi
+          obtain ⟨σ, rfl⟩ := hi
+          obtain ⟨x', s', ht, hx, hs⟩ := succT_inv hr
+          simp only [List.map, substT_int, List.cons.injEq, Term.int.injEq, and_true] at ht
+          omega
+        · cases h
+          apply succ_single_aux (by omega) (by omega)
+          intro σ hr
+          obtain ⟨x', s', ht, hx, hs⟩ := succT_inv hr
+          simp only [substT_int, List.cons.injEq, Term.int.injEq, and_true] at ht
+          obtain ⟨h1, h2⟩ := ht
+          simp only [h1, substT_int, Term.int.injEq, and_true]
+          omega
+    · cases h
+  · rename_i xv
+    split at h
+    · cases h
+    · split at h
+      · cases h
+      · have aux : Exact succT [Term.int xv, s] (selectCands [Term.int xv, s] [[.int xv, .int (xv + 1)]]) := by
+          apply succ_single_aux rfl (by omega)
+          intro σ hr
+          obtain ⟨x', s', ht, hx, hs⟩ := succT_inv hr
+          simp only [substT_int, List.cons.injEq, Term.int.injEq, and_true] at ht
+          obtain ⟨h1, h2⟩ := ht
+          simp only [substT_int, h2, Term.int.injEq, true_and]
+          omega
+        split at h
+        · cases h; exact aux
+        · split at h
+          · cases h
+          · cases h; exact aux
+        · cases h
+  · cases h
+
+theorem modeErrors_succ (x s : Term) : modeErrors "succ" [x, s] =
+    (if isVar x ∧ isVar s then [instErr] else []) ++ notLessThanZero x ++ notLessThanZero s := rfl
+
+theorem optionalErrors_succ_int (x : Int) (s : Term) : optionalErrors "succ" [.int x, s] =
+    if x = 9223372036854775807 then [evaluationErr "int_overflow"] else [] := rfl
+
+/-- succ/2 raises evaluation_error(int_overflow) exactly at max_integer: the successor of every
+    other non-negative 64-bit integer is computed -/
+theorem C16_succ_errors (x s : Term) (h64 : ∀ i, x = .int i → i ≤ maxInt) :
+    ErrorsOk "succ" [x, s] (Rel.succ x s) := by
+  cases x with
+  | int xv =>
+    have hx := h64 xv rfl
+    apply errorsOk_of _ _ (modeErrors_succ _ s) (optionalErrors_succ_int xv s)
+    unfold Rel.succ
+    simp only [isVar, notLessThanZero, maxInt] at *
+    by_cases h0 : xv < 0
+    · simp [h0]
+    · by_cases hmax : xv = 9223372036854775807
+      · subst hmax; simp
+      · have : ¬ xv > 9223372036854775807 - 1 := by omega
+        simp only [h0, this, hmax, if_false]
+        cases s <;> simp
+        all_goals (split <;> simp_all)
+  | var v =>
+    apply errorsOk_of _ [] (modeErrors_succ _ s) rfl
+    unfold Rel.succ
+    cases s <;> simp [isVar, notLessThanZero]
+    split <;> simp_all
+    split <;> simp_all
+  | atom _ => exact errorsOk_of _ [] (modeErrors_succ _ s) rfl (by simp [Rel.succ, isVar, notLessThanZero])
+  | flt _ => exact errorsOk_of _ [] (modeErrors_succ _ s) rfl (by simp [Rel.succ, isVar, notLessThanZero])
+  | str _ => exact errorsOk_of _ [] (modeErrors_succ _ s) rfl (by simp [Rel.succ, isVar, notLessThanZero])
+  | app _ _ => exact errorsOk_of _ [] (modeErrors_succ _ s) rfl (by simp [Rel.succ, isVar, notLessThanZero])
+
+theorem C16_succ_monotone {x s x' s' : Term} {ans ans' : Answers}
+    (h : Rel.succ x s = .ok ans) (h' : Rel.succ x' s' = .ok ans') (hi : IsInstance [x, s] [x', s']) :
+    ans'.Perm (ans.filter fun t => decide (IsInstance [x', s'] t)) :=
+  (C16_succ_exact h).monotone (C16_succ_exact h') hi
+
+example : Rel.succ (.var 0) (.int maxInt) = .ok [[.int (maxInt - 1), .int maxInt]] := by decide +kernel
+example : Rel.succ (.int maxInt) (.var 0) = .error (evaluationErr "int_overflow") := by decide +kernel
+
 
 end PrologVerif.C16
